@@ -396,6 +396,17 @@ type KEmbedded struct {
 	Home *Addr `gorm:"embedded;embeddedPrefix:home_"`
 }
 
+// the same struct embedded twice, its fields renamed by column tags (C03)
+type Place struct {
+	Town string `gorm:"column:town"`
+	Code int    `gorm:"column:pc"`
+}
+type KEmbeddedTwice struct {
+	ID   uint
+	Home Place `gorm:"embedded;embeddedPrefix:home_"`
+	Work Place `gorm:"embedded;embeddedPrefix:work_"`
+}
+
 // default tags (C03)
 type KDefault struct {
 	ID    uint
